@@ -476,7 +476,7 @@ def stale_expression_case(fmt, wd: Path):
 
 
 # =========================================================================== FromSpec
-GROUPS = {"list": [], "dict1": ["rates"], "dict2": ["shapes", "s1"]}
+GROUPS = {"list": [], "dict1": ["rates"], "dict2": ["shapes", "s1"], "dict3": ["kinetic", "dataset1", "rates"]}
 SCI = [("1e3", 1000.0), ("2.5E-3", 0.0025), ("-1e-2", -0.01), ("1E7", 1e7), ("3.0e+2", 300.0)]
 FLOATS = [0.5, 1.25, 30.0, 0.1 + 0.2, 620.5]
 INTS = [3, 40, 7]
@@ -823,12 +823,12 @@ def run(tier: str, replay=None) -> int:
 
     if tier == "quick":
         consts = (LABELS_ALL, ["zero", "one", "frac", "frac17", "huge", "negtiny", "neginf"], STDERR_ALL, TABLE_FORMATS, 3, 2, 2)
-        fs_consts = (["list", "dict1", "dict2"], ["bare", "v", "lv", "vl"], ["float", "sci"], ["none", "vary_false", "vary_true", "expr"],
+        fs_consts = (["list", "dict1", "dict2", "dict3"], ["bare", "v", "lv", "vl"], ["float", "sci"], ["none", "vary_false", "vary_true", "expr"],
                      ["none", "vary_false", "nonneg"], 2)
         sheet_sample = 260
     else:
         consts = (LABELS_ALL, VALUES_ALL, STDERR_ALL, TABLE_FORMATS, 3, 3, 2)
-        fs_consts = (["list", "dict1", "dict2"], ["bare", "v", "lv", "vl"], ["float", "int", "sci"],
+        fs_consts = (["list", "dict1", "dict2", "dict3"], ["bare", "v", "lv", "vl"], ["float", "int", "sci"],
                      ["none", "vary_false", "vary_true", "nonneg", "bounds", "expr"], ["none", "vary_false", "nonneg"], 2)
         sheet_sample = None
 
